@@ -251,6 +251,21 @@ def _body_paths(check):
             continue       # first order by definition: E1-ADJ is its clause
         check.guarded("LIN-EXACT", "xnum." + c, lambda: exactness(check, proj, c))
     check.guarded("MUSCL-ARGS", "xnum.muscl", lambda: muscl_args(check, proj))
+    # "... and MUSCL with every limiter": exactness on linear data uses phi(s,s) = s (on the statement's scale
+    # range), phi(0,0) = 0 and oddness of each provided limiter -- the same obligations as C12, kept here for
+    # these three clauses only
+    from . import c12
+    from ..disc1d import LIMITERS
+    for ln_ in [n_ for n_ in LIMITERS if n_ in proj.module("xnum").functions]:
+        n0 = len(check.obs)
+        check.guarded("LIM-AXIOM", "xnum." + ln_, lambda: c12.analyse(check, proj, ln_))
+        kept = []
+        for o in check.obs[n0:]:
+            if o.rule in ("LIM-CONSIST", "LIM-ZERO", "LIM-ODD"):
+                kept.append(o)
+            elif o.rule == "LIM-AXIOM":
+                kept.append(o)
+        check.obs[n0:] = kept
     for c in ["extrapol2", "extrapolk", "centered", "fromm", "quick", "extrapol3"]:
         check.guarded("KAPPA-STENCIL", "xnum." + c, lambda: kappa_stencil(check, proj, c))
     check.guarded("KAPPA-SIBLING", "xnum.extrapol2", lambda: sibling(check, proj))
